@@ -69,7 +69,7 @@ def main():
     shutil.rmtree(COPY, ignore_errors=True)
     shutil.rmtree(os.path.join(VERIF, ".build", "asan-c04"), ignore_errors=True)
     # restore generated Lean files from the real repo
-    subprocess.run(["python3", "-c", "from vf import core; core.run_translators(['vmops','precedence'])"], cwd=VERIF)
+    subprocess.run(["python3", "-c", "from vf import core; core.run_translators(['vmops','precedence','readfn','opcodes'])"], cwd=VERIF)
     print("summary:", sum(1 for v in results.values() if v.startswith("CAUGHT")), "caught of", len(results))
 
 
